@@ -34,3 +34,29 @@ Fixpoint net (ops : list lop) : Z :=
   end.
 Definition assigned_over (ops : list lop) : list Z :=
   flat_map (fun o => match o with LMoveAssignOnto t => if t =? 0 then [] else [t] | _ => [] end) ops.
+
+(* ---------- the process-wide checker of the stateless low-level allocators (detail::global_leak_checker_impl) ---------- *)
+(* one static counter object per translation unit that includes the allocator's header; all allocator objects share one
+   count; the report is made by the destructor of the last counter object *)
+Inductive gop := GCounterCtor | GCounterDtor | GAllocd (n : Z) | GDeallocd (n : Z).
+Record gstate := { g_refs : nat; g_alloc : Z; g_reports : list Z }.
+Definition gl_step (s : gstate) (o : gop) : gstate :=
+  match o with
+  | GCounterCtor => {| g_refs := S (g_refs s); g_alloc := g_alloc s; g_reports := g_reports s |}
+  | GCounterDtor =>
+      {| g_refs := pred (g_refs s); g_alloc := g_alloc s;
+         g_reports := g_reports s ++ (if Nat.eqb (pred (g_refs s)) 0 && negb (g_alloc s =? 0) then [g_alloc s] else []) |}
+  | GAllocd n => {| g_refs := g_refs s; g_alloc := g_alloc s + n; g_reports := g_reports s |}
+  | GDeallocd n => {| g_refs := g_refs s; g_alloc := g_alloc s - n; g_reports := g_reports s |}
+  end.
+Definition gl_run (ops : list gop) : gstate := fold_left gl_step ops {| g_refs := 0; g_alloc := 0; g_reports := [] |}.
+(* what lowlevel_allocator counts for a node of `size` bytes: the size it asks its functor for *)
+Definition ll_actual (fence_on : bool) (max_al size : Z) : Z := size + (if fence_on then 2 * max_al else 0).
+Fixpoint gnet (ops : list gop) : Z :=
+  match ops with
+  | [] => 0
+  | GAllocd n :: tl => n + gnet tl
+  | GDeallocd n :: tl => gnet tl - n
+  | _ :: tl => gnet tl
+  end.
+Definition is_traffic (o : gop) : bool := match o with GAllocd _ | GDeallocd _ => true | _ => false end.
